@@ -594,6 +594,147 @@ def op_table():
         if v is not None:
             v.tag = t % 2
 
+    # ------------------------------------------------------------------ adjacency builders / randgraph (C11, C20)
+    def _adj_check(P, uni, old, cells, order, cls, what):
+        """the result of an adjacency builder against the statement of C11: `cells` = the listed pairs in input order,
+        `order` = the expected member order, `old` = observables before the call"""
+        E = P.eg
+        if type(uni) is not E["Universe"] or any(uni is u for u in P.U):
+            raise PropertyViolation(f"C11: {what} did not return a new universe")
+        if not same_seq(uni.vertices, order):
+            raise PropertyViolation(f"C11: {what}: members {fmt(P, uni.vertices)} != expected {fmt(P, order)}")
+        allo = P.V + P.U
+        oldlinks = {id(o): old[id(o)][0] for o in allo}
+        for o in allo:
+            now = o.links
+            was = oldlinks[id(o)]
+            if not same_seq(now[:len(was)], was):
+                raise PropertyViolation(f"C11: {what} disturbed the pre-existing links of a vertex")
+            new = now[len(was):]
+            # the created links incident to o, in creation order = the cells mentioning o, in input order (a self-entry once)
+            exp = [(a, b) for (a, b) in cells if a is o or b is o]
+            if len(new) != len(exp):
+                raise PropertyViolation(f"C11: {what}: a vertex got {len(new)} new links, {len(exp)} listed pairs mention it")
+            for l, (a, b) in zip(new, exp):
+                if type(l) is not cls:
+                    raise PropertyViolation(f"C11: {what} created a {type(l).__name__}, requested {cls.__name__}")
+                if not (l.v1 is a and l.v2 is b):
+                    raise PropertyViolation(f"C11: {what}: a created link is not oriented key/row -> value/column in input order")
+                if len(l.universes) != 0:
+                    raise PropertyViolation(f"C11: {what}: a created link was put into a universe")
+            wasu = old[id(o)][1]
+            nowu = o.universes
+            expu = list(wasu) + ([uni] if any(o is m for m in order) else [])
+            if not same_seq(nowu, expu):
+                raise PropertyViolation(f"C11: {what}: universes of a vertex are {len(nowu)}, expected the old ones{' plus the new one' if len(expu) > len(wasu) else ''}")
+        for l in P.L:
+            if not same_seq(l.vertices, old[id(l)][2]):
+                raise PropertyViolation(f"C11: {what} changed the ends of a pre-existing link")
+        # reading back: neighbors() of a key reproduces its row among the new links (forward direction)
+        P.L.extend(x for o in allo for x in o.links[len(oldlinks[id(o)]):] if not any(x is y for y in P.L))
+        P.U.append(uni)
+
+    def _adj_before(P):
+        return {id(o): (tuple(getattr(o, "links", ())), tuple(o.universes), tuple(o.vertices) if hasattr(o, "vertices") else ()) for o in P.V + P.U + P.L}
+
+    @reg("adj_dict", 2, "adj")
+    def _(P, seed, lt):
+        rng = random.Random(seed)
+        verts = list(P.V)
+        rng.shuffle(verts)
+        keys = verts[: rng.randint(0, len(verts))]
+        adj = {}
+        cells, order = [], []
+        for k in keys:
+            row = [rng.choice(P.V) for _ in range(rng.choice([0, 0, 1, 2, 3]))]
+            adj[k] = row if rng.random() < 0.5 else tuple(row)
+            if not any(k is m for m in order):
+                order.append(k)
+            for w in row:
+                cells.append((k, w))
+                if not any(w is m for m in order):
+                    order.append(w)
+        cls = list(P.classes.values())[lt % len(P.classes)]
+        old = _adj_before(P)
+        uni = P.mods["adjlist"].load_adj_dict(adj, linktype=cls) if lt >= 0 else P.mods["adjlist"].load_adj_dict(adj)
+        if lt < 0:
+            cls = P.eg["UnDirectedEdge"]
+        _adj_check(P, uni, old, cells, order, cls, "load_adj_dict")
+
+    @reg("adj_matrix", 3, "adj")
+    def _(P, seed, lt, bad):
+        rng = random.Random(seed)
+        verts = list(P.V)
+        rng.shuffle(verts)
+        n = rng.randint(0, len(verts))
+        verts = verts[:n]
+        truthy = [1, True, "x", [0], 2.5, (None,)]
+        falsy = [0, False, "", [], None, 0.0]
+        matrix = [[(rng.choice(truthy) if rng.random() < 0.45 else rng.choice(falsy)) for _j in range(n)] for _i in range(n)]
+        cells = [(verts[i], verts[j]) for i in range(n) for j in range(n) if matrix[i][j]]
+        cls = list(P.classes.values())[lt % len(P.classes)]
+        old = _adj_before(P)
+        obs = observable(P)
+        bad = bad % 4
+        if bad == 1 and n:
+            matrix[rng.randrange(n)].append(1)                # not a square
+        elif bad == 2 and n:
+            matrix[-1] = matrix[-1][:-1]                       # last row too short (found only after scanning the others)
+        elif bad == 3:
+            verts = verts + [P.V[0]]                           # side array of the wrong length
+        else:
+            bad = 0
+        kw = {"linktype": cls} if lt >= 0 else {}
+        if lt < 0:
+            cls = P.eg["DirectedEdge"]
+        try:
+            uni = P.mods["adjmatrix"].load_adj_matrix(matrix, verts, **kw)
+        except ValueError:
+            if not bad:
+                raise PropertyViolation("C11: load_adj_matrix rejected a square matrix with a matching side array")
+            if observable(P) != obs:
+                raise PropertyViolation("C11: load_adj_matrix raised ValueError after touching a vertex or link")
+            return
+        if bad:
+            raise PropertyViolation("C11: load_adj_matrix accepted a malformed matrix / side array")
+        _adj_check(P, uni, old, cells, verts, cls, "load_adj_matrix")
+
+    @reg("randgraph", 4, "rand")
+    def _(P, seed, count, lt, mode):
+        """C20: randgraph(count, edge, connectivity, ensurelink) under a seeded generator"""
+        import random as _r
+        count = 1 + count % 7
+        cls = [P.eg["DirectedEdge"], P.eg["UnDirectedEdge"], P.classes["SubDirected"], P.classes["OtherLink"]][lt % 4]
+        conn = [None, 0.0, 1.0, 0.5, 0.2][mode % 5]
+        ens = bool((mode // 5) % 2)
+        rg = P.mods["randgraph"].randgraph
+
+        def run():
+            _r.seed(seed)
+            kw = {"count": count, "edge": cls, "ensurelink": ens}
+            if conn is not None:
+                kw["connectivity"] = conn
+            return rg(**kw)
+        try:
+            uni = run()
+        except Exception as exc:
+            raise PropertyViolation(f"C20: randgraph(count={count}, connectivity={conn}, ensurelink={ens}) raised {type(exc).__name__}: {exc}")
+        vs = uni.vertices
+        if len(vs) != count or sorted(v.i for v in vs) != list(range(count)) or len({id(v) for v in vs}) != count:
+            raise PropertyViolation(f"C20: randgraph(count={count}) returned {len(vs)} vertices / wrong i attributes")
+        for v in vs:
+            for l in v.links:
+                if type(l) is not cls:
+                    raise PropertyViolation("C20: randgraph created a link of another type")
+                if not all(any(e is m for m in vs) for e in l.vertices):
+                    raise PropertyViolation("C20: a link of the random graph has an end outside the universe")
+            if ens and not any(l.v1 is v for l in v.links):
+                raise PropertyViolation("C20: ensurelink is set but a vertex is the first end of no link")
+        again = run()
+        shape = lambda u: [(v.i, [(l.v1.i, l.v2.i) for l in v.links]) for v in u.vertices]
+        if shape(again) != shape(uni):
+            raise PropertyViolation("C20: the same seed gave a different graph")
+
     @reg("mutate_last_result", 1, "query")
     def _(P, k):
         # a caller may do anything with a container it was handed (C12)
@@ -804,6 +945,7 @@ GROUPS = {
     "C16": ("assoc", "explicit", "member", "text"), "C17": ("singleton",), "C18": ("singleton",),
     "C06": ("assoc", "explicit", "member", "traverse"), "C07": ("assoc", "explicit", "member", "traverse"),
     "C08": ("assoc", "explicit", "member", "traverse"),
+    "C11": ("assoc", "explicit", "member", "adj"), "C20": ("rand",),
 }
 
 
@@ -811,7 +953,7 @@ def fresh_world(repo_root, only=None):
     mon = Monitor(repo_root, only=only).install()
     import importlib
     mods = {}
-    for m in ("explicit",):
+    for m in ("explicit", "adjlist", "adjmatrix", "randgraph"):
         try:
             mods[m] = importlib.import_module("edgegraph.builder." + m)
         except Exception:
